@@ -355,6 +355,8 @@ class AReport:
             f[0] += 1
             f[2] += r['secs']
             run.queries += 0 if r['trivial'] else 1
+            if not r['trivial'] and not expect_sat:
+                run.nontrivial.add(ob.name)
             if r['result'] == 'unsat':
                 f[1] += 1
                 if r.get('model') == 'reciprocal elimination':
